@@ -224,6 +224,59 @@ Example c17_nonvacuous_causes :
    fst (follow 50 e false b1 (rq EpLogout "/app/oauth2/logout") (repeat (f 500 FcStoreTimeout) 9)) = [307; 307; 307; 500]).
 Proof. vm_compute. repeat split; reflexivity. Qed.
 
+(** (2b) several counters in one request. With nested ingress paths on one host (or two instances, one at the root and one
+    below a path) the browser can hold a retry cookie per path and sends all that match, the one with the longest Path first
+    (RFC 6265 5.4; Model/Jar.v [jar_select], compared with net/http/cookiejar on every run). The counter the server reads -
+    http.Request.Cookie, the FIRST cookie of that name - is the value of a live cookie matching the request URL, and no other
+    live matching cookie of that name has a longer Path: the failures under the more specific ingress are judged on that
+    ingress's own counter, never on a stale one left on a less specific path. For every jar, URL and time: *)
+Theorem c17_counter_read_is_most_specific : forall trust now u j name v,
+  jar_cookie trust now u j name = Some v ->
+  exists c, In c j /\ live now c = true /\ should_send trust u c = true /\ j_name c = name /\ j_value c = v /\
+            forall c', In c' j -> live now c' = true -> should_send trust u c' = true -> j_name c' = name ->
+                       (List.length (j_path c') <= List.length (j_path c))%nat.
+Proof. exact jar_cookie_most_specific. Qed.
+Print Assumptions c17_counter_read_is_most_specific.
+
+(** Why it has to be the first. Ingresses https://h.example.com and https://h.example.com/b. A request at the root ingress
+    fails once and its automatic retry succeeds (login abandoned at the provider): the browser keeps retry=1; Path=/. Then the
+    provider is down for requests under /b. Reading the LAST same-named cookie ("the most recent one") judges every one of
+    them on the stale value 1: redirected for ever (here 50 of 50 requests). Reading the first - the code, and [follow] - gives
+    two more redirects and then the error page. *)
+Definition root_and_b_cfg : kconfig :=
+  {| cf_secure := true; cf_samesite := b "Lax"; cf_prefix := b "io.nais.wonderwall";
+     cf_ingresses := [b "https://h.example.com"; b "https://h.example.com/b"];
+     cf_sso_server := false; cf_sso_domain := []; cf_sso_name := []; cf_legacy := false;
+     cf_rl_enabled := false; cf_rl_logins := 5; cf_rl_window := 5000000000; cf_seg_prefix := true; cf_rl_ceil := true |}.
+
+Theorem c17_last_match_refuted :
+  let e := env_of root_and_b_cfg "h.example.com" in
+  let b0 := {| b_jar := []; b_now := 0; b_session := false |} in
+  let '(sts, b1) := follow 50 e false b0 (rq EpLogin "/oauth2/login") [CFErr 500; CFNone] in
+  let q := rq EpLogin "/b/oauth2/login" in
+  sts = [307; 302] /\
+  jar_cookie false 0 (origin_of e (q_path q)) (b_jar b1) (cookie_name root_and_b_cfg CkRetry) = Some (VLit (b "1")) /\
+  fail_chain last_named 50 e b1 q 500 = repeat 307 50 /\
+  fail_chain first_named 50 e b1 q 500 = [307; 307; 500] /\
+  fst (follow 50 e false b1 q (repeat (CFErr 500) 60)) = [307; 307; 500].
+Proof. vm_compute. repeat split; reflexivity. Qed.
+Print Assumptions c17_last_match_refuted.
+
+(** non-vacuity of c17_counter_read_is_most_specific: in that browser, after two failures under /b, a request under /b carries
+    two retry cookies, "3" (Path=/b) before "1" (Path=/), and the one read is "3" *)
+Example c17_most_specific_nonvacuous :
+  let e := env_of root_and_b_cfg "h.example.com" in
+  let b0 := {| b_jar := []; b_now := 0; b_session := false |} in
+  let b1 := snd (follow 50 e false b0 (rq EpLogin "/oauth2/login") [CFErr 500; CFNone]) in
+  let q := rq EpLogin "/b/oauth2/login" in
+  let b2 := run_jar_seq e b1 [(0, q, CFErr 500); (0, q, CFErr 500)] in
+  let name := cookie_name root_and_b_cfg CkRetry in
+  map (fun c => (j_value c, j_path c)) (filter (fun c => beq (j_name c) name) (jar_select false 0 (origin_of e (q_path q)) (b_jar b2)))
+    = [(VLit (b "3"), b "/b"); (VLit (b "1"), b "/")] /\
+  jar_cookie false 0 (origin_of e (q_path q)) (b_jar b2) name = Some (VLit (b "3")) /\
+  last_named name (jar_select false 0 (origin_of e (q_path q)) (b_jar b2)) = Some (VLit (b "1")).
+Proof. vm_compute. repeat split; reflexivity. Qed.
+
 (** (5) rate limit. [rl_step] is the logincount cookie seen by the rate limiter for a browser whose session cookie
     resolves to a stored session. With the limit enabled and a window of at least one whole second
     (W = whole seconds of the window): *)
